@@ -1061,4 +1061,174 @@ theorem ginit_inv (n seq0 t : Nat) : GInv (ginit { blk := newBlock n seq0 none, 
   refine List.Pairwise.imp ?_ List.pairwise_lt_range
   intro a b hab; right; exact ⟨rfl, hab⟩
 
+/-! ### sequence numbers under the client's discipline (read+gc, operate, `SequenceNumber++`, write) -/
+
+/-- every stored per-ordinal sequence number is `≤` the block's -/
+def Block.SeqLe (b : Block) : Prop := ∀ (o v : Nat), b.seqFor[o]? = some (some v) → v ≤ b.seq
+/-- … is `<` the block's (holds for every block a client has written) -/
+def Block.SeqLt (b : Block) : Prop := ∀ (o v : Nat), b.seqFor[o]? = some (some v) → v < b.seq
+
+theorem setAll_seqLe {l : List (Option Nat)} {q : Nat} (idxs : List Nat) (v : Option Nat)
+    (h : ∀ (o w : Nat), l[o]? = some (some w) → w ≤ q) (hv : ∀ w, v = some w → w ≤ q) :
+    ∀ (o w : Nat), (setAll l idxs v)[o]? = some (some w) → w ≤ q := by
+  intro o w how
+  rw [setAll_getElem?] at how
+  split at how
+  · cases hl : l[o]? with
+    | none => simp [hl] at how
+    | some x => simp [hl] at how; exact hv w how
+  · exact h o w how
+
+theorem aa_seq (b : Block) (num : Nat) (h : Option Handle) (owner : Nat) (rsv : List Nat) :
+    (b.autoAssign num h owner rsv).1.seq = b.seq := by
+  unfold Block.autoAssign; simp only []; split <;> rfl
+
+theorem aa_seqFor (b : Block) (num : Nat) (h : Option Handle) (owner : Nat) (rsv : List Nat) :
+    (b.autoAssign num h owner rsv).1.seqFor = setAll b.seqFor (b.autoAssign num h owner rsv).2 (some b.seq) := by
+  rw [aa_result]
+  unfold Block.autoAssign; simp only []
+  split
+  · rename_i he; simp [he, setAll]
+  · rfl
+
+theorem assign_seq (b : Block) (o : Nat) (h : Option Handle) (owner : Nat) : (b.assign o h owner).1.seq = b.seq := by
+  rcases assign_cases b o h owner with ⟨_, hc⟩ | ⟨_, _, hc⟩ | ⟨_, _, hc⟩ <;> rw [hc] <;> rfl
+
+theorem release_seq (b : Block) (cd : Int) (now : Nat) (opts : List ROpt) : (b.release cd now opts).1.seq = b.seq := by
+  rcases release_cases b cd now opts with ⟨_, _, _, hb, _⟩ | ⟨_, _, hc⟩ | ⟨_, _, hc⟩
+  · rw [hb]
+  · rw [hc]
+  · rw [hc, gc_seq, mc_seq]
+
+theorem relh_seq (b : Block) (cd : Int) (now : Nat) (h : Handle) (q : Option Nat) : (b.releaseByHandle cd now h q).1.seq = b.seq := by
+  rcases relh_cases b cd now h q with ⟨_, hc⟩ | ⟨_, hc⟩ | ⟨_, hc⟩
+  · rw [hc]
+  · rw [hc, gc_seq]
+  · rw [hc, gc_seq, mc_seq]
+
+theorem gc_seqLe {b : Block} (h : b.SeqLe) (cd : Int) (now : Nat) : (b.gc cd now).1.SeqLe := by
+  unfold Block.SeqLe
+  rw [gc_seq, gc_seqFor]
+  exact setAll_seqLe _ none h (by intro w hw; cases hw)
+
+theorem mc_seqLe {b : Block} (h : b.SeqLe) (now : Nat) (ords : List Nat) (s : Bool) : (b.markCooldown now ords s).SeqLe := by
+  unfold Block.SeqLe
+  rw [mc_seq]
+  unfold Block.markCooldown Block.addCooldown; simp only []
+  split
+  · exact setAll_seqLe _ _ h (by intro w hw; cases hw; exact Nat.le_refl _)
+  · exact h
+
+/-- every operation other than the bump keeps `SeqLe`; the block's own sequence number only moves at a bump -/
+theorem step_seqLe {s : St} (h : s.blk.SeqLe) (op : Op) : (step s op).blk.SeqLe := by
+  cases op with
+  | bump => intro o v hov; have := h o v hov; simp only [step]; omega
+  | tick d => exact h
+  | gc cd => exact gc_seqLe h cd s.now
+  | auto num hd owner rsv =>
+    unfold Block.SeqLe
+    simp only [step]
+    rw [aa_seq, aa_seqFor]
+    exact setAll_seqLe _ _ h (by intro w hw; cases hw; exact Nat.le_refl _)
+  | assign o hd owner =>
+    simp only [step]
+    rcases assign_cases s.blk o hd owner with ⟨_, hc⟩ | ⟨_, _, hc⟩ | ⟨_, _, hc⟩
+    · rw [hc]; exact h
+    · rw [hc]; intro o' v hov
+      simp only [] at hov ⊢
+      by_cases he : o = o'
+      · subst he
+        by_cases hl : o < s.blk.seqFor.length
+        · rw [List.getElem?_set_self hl] at hov; cases hov; exact Nat.le_refl _
+        · rw [List.getElem?_eq_none (by simp; omega)] at hov; cases hov
+      · rw [List.getElem?_set_ne he] at hov; exact h o' v hov
+    · rw [hc]; intro o' v hov
+      simp only [assignOkBlock] at hov ⊢
+      by_cases he : o = o'
+      · subst he
+        by_cases hl : o < s.blk.seqFor.length
+        · rw [List.getElem?_set_self hl] at hov; cases hov; exact Nat.le_refl _
+        · rw [List.getElem?_eq_none (by simp; omega)] at hov; cases hov
+      · rw [List.getElem?_set_ne he] at hov; exact h o' v hov
+  | release cd opts =>
+    simp only [step]
+    rcases release_cases s.blk cd s.now opts with ⟨_, _, _, hb, _⟩ | ⟨_, _, hc⟩ | ⟨_, _, hc⟩
+    · rw [hb]; exact h
+    · rw [hc]; exact h
+    · rw [hc]; exact gc_seqLe (mc_seqLe h _ _ _) cd s.now
+  | relh cd hd q =>
+    simp only [step]
+    rcases relh_cases s.blk cd s.now hd q with ⟨_, hc⟩ | ⟨_, hc⟩ | ⟨_, hc⟩
+    · rw [hc]; exact h
+    · rw [hc]; exact gc_seqLe h cd s.now
+    · rw [hc]; exact gc_seqLe (mc_seqLe h _ _ _) cd s.now
+
+theorem step_seq_ge (s : St) (op : Op) : s.blk.seq ≤ (step s op).blk.seq := by
+  cases op with
+  | bump => simp [step]
+  | tick d => exact Nat.le_refl _
+  | gc cd => simp [step, gc_seq]
+  | auto num hd owner rsv => simp [step, aa_seq]
+  | assign o hd owner => simp [step, assign_seq]
+  | release cd opts => simp [step, release_seq]
+  | relh cd hd q => simp [step, relh_seq]
+
+/-- One client-level operation on a block: read it and garbage collect (`blockFromBackend`), apply
+`op`, and either write it back with `SequenceNumber++` (`commit`) or drop the in-memory copy. -/
+def cstep (s : St) (c : Int × Op × Bool) : St :=
+  if c.2.2 then step (step (step s (.gc c.1)) c.2.1) .bump else s
+
+def crun (s : St) (cs : List (Int × Op × Bool)) : St := cs.foldl cstep s
+
+theorem cstep_WF {s : St} (hw : WF s.blk) (c : Int × Op × Bool) : WF (cstep s c).blk := by
+  unfold cstep; split
+  · exact step_WF (step_WF (step_WF hw _) _) _
+  · exact hw
+
+theorem cstep_seqLt {s : St} (h : s.blk.SeqLt) (c : Int × Op × Bool) : (cstep s c).blk.SeqLt := by
+  unfold cstep; split
+  · have h0 : s.blk.SeqLe := fun o v hov => Nat.le_of_lt (h o v hov)
+    have h2 := step_seqLe (step_seqLe h0 (.gc c.1)) c.2.1
+    intro o v hov
+    have hv : v ≤ (step (step s (.gc c.1)) c.2.1).blk.seq := h2 o v hov
+    show v < (step (step s (.gc c.1)) c.2.1).blk.seq + 1
+    omega
+  · exact h
+
+theorem cstep_seq_ge (s : St) (c : Int × Op × Bool) : s.blk.seq ≤ (cstep s c).blk.seq := by
+  unfold cstep; split
+  · exact Nat.le_trans (Nat.le_trans (step_seq_ge s _) (step_seq_ge _ _)) (step_seq_ge _ _)
+  · exact Nat.le_refl _
+
+theorem crun_inv {s : St} (hw : WF s.blk) (h : s.blk.SeqLt) (cs : List (Int × Op × Bool)) :
+    WF (crun s cs).blk ∧ (crun s cs).blk.SeqLt ∧ s.blk.seq ≤ (crun s cs).blk.seq := by
+  induction cs generalizing s with
+  | nil => exact ⟨hw, h, Nat.le_refl _⟩
+  | cons c cs ih =>
+    have := ih (cstep_WF hw c) (cstep_seqLt h c)
+    exact ⟨this.1, this.2.1, Nat.le_trans (cstep_seq_ge s c) this.2.2⟩
+
+/-- the sequence number stamped on an address handed out by `autoAssign` is the block's current one -/
+theorem aa_getSeq {b : Block} (hw : WF b) (num : Nat) (h : Option Handle) (owner : Nat) (rsv : List Nat) (o : Nat)
+    (ho : o ∈ (b.autoAssign num h owner rsv).2) : (b.autoAssign num h owner rsv).1.getSeq o = b.seq := by
+  have hfree : b.allocs[o]? = some none := by
+    rw [aa_result] at ho; exact aa_taken_free hw num rsv o ho
+  have hlt : o < b.seqFor.length := by
+    rw [hw.slen, ← hw.alen]
+    by_cases hh : o < b.allocs.length
+    · exact hh
+    · rw [List.getElem?_eq_none (Nat.le_of_not_lt hh)] at hfree; cases hfree
+  unfold Block.getSeq
+  rw [aa_seqFor, setAll_getElem?]
+  simp [ho, List.getElem?_eq_getElem hlt]
+
+theorem assign_ok_getSeq {b : Block} (hw : WF b) (o : Nat) (h : Option Handle) (owner : Nat)
+    (hok : (b.assign o h owner).2 = .ok) : (b.assign o h owner).1.getSeq o = b.seq := by
+  rcases assign_cases b o h owner with ⟨_, hc⟩ | ⟨_, _, hc⟩ | ⟨hlt, _, hc⟩
+  · rw [hc] at hok; cases hok
+  · rw [hc] at hok; cases hok
+  · rw [hc]
+    have : o < b.seqFor.length := by rw [hw.slen]; exact hlt
+    simp [Block.getSeq, assignOkBlock, List.getElem?_set_self this]
+
 end CalicoVerif.C21
